@@ -97,7 +97,32 @@ pub fn run(tier: Tier, reg: &[VT]) -> Report {
 					let unit = ref_enc(e, &domain::fill(e, 0)).map(|x| x.len().max(1)).unwrap_or(1);
 					let n = 5 * 16384 / unit + 3;
 					vals.push(Value::List((0..n).map(|i| domain::fill(e, i)).collect()));
+					if matches!(k, refmodel::SeqKind::List) && unit <= 2 {
+						// node-based lists announce per element: lengths at and beyond 2^16
+						for n in [65535usize, 65536, 131072] {
+							vals.push(Value::List((0..n).map(|i| domain::fill(e, i)).collect()));
+						}
+					}
 				}
+			}
+		}
+		// trees of every size across the node-count steps (elements are position-coded keys)
+		if vt.class == "bigtree" || (t && vt.core) {
+			let sizes: Vec<usize> = if t { (1..=128).collect() } else { vec![1, 2, 5, 9, 10, 11, 13, 14, 15, 19, 20, 23, 25, 27, 28, 30, 41, 55, 64, 100] };
+			match &shape {
+				Shape::Map(k, val) =>
+					for n in sizes {
+						let mut xs = vec![];
+						for i in 0..n {
+							xs.push((domain::fill(k, i), domain::fill(val, i)));
+						}
+						vals.push(Value::Map(xs));
+					},
+				Shape::Seq(refmodel::SeqKind::Set, e) =>
+					for n in sizes {
+						vals.push(Value::List((0..n).map(|i| domain::fill(e, i * 3 + 1)).collect()));
+					},
+				_ => {},
 			}
 		}
 		for v in vals {
